@@ -21,6 +21,9 @@ from pyvc import arrays
 FD = "pyxel/calibration/fitting_datatree.py"
 AD = "pyxel/calibration/archipelago_datatree.py"
 PVQ = "pyxel/observation/parameter_values.py"
+BOUNDED = {
+    r'^bounds\.layout': 'a fixed family of variable layouts (scalars and vectors of 2..3 components)',
+}      # unit-name / obligation-name patterns -> the family these obligations are proved for
 TRUSTED = ["real arithmetic; 10**x and log10 are uninterpreted, strictly monotone and mutually inverse on positives (10**log10(b) may differ from b by an ulp in binary64)",
            "pygmo only proposes vectors inside get_bounds()", "offset monotonicity lemma off(J+1) <= off(k) for J < k (proved by induction, then used as an instance)",
            "_set_bound is proved on bounded shapes (1..3 variables, vector widths 1..3) with symbolic bounds"]
